@@ -45,6 +45,9 @@ pub struct Case {
     /// per-mille — the valid `cat a.bgz b.bgz` shape that noodles' own writers never produce
     #[serde(default)]
     pub empty_member: Option<u16>,
+    /// BGZF based files: re-cut the payload into blocks at arbitrary byte offsets first
+    #[serde(default)]
+    pub reframe: Option<u32>,
 }
 
 fn sizes() -> BoxedStrategy<Vec<u32>> {
@@ -196,6 +199,11 @@ fn check(drv: &dyn Driver, c: &Case, with_interrupts: bool) -> Verdict {
         Err(e) => return fail1(format!("c12.baseline-write-error:{name}"), format!("writing the generated document failed: {e}")),
     };
     let mut bytes = bytes;
+    if let (true, Some(seed)) = (drv.is_bgzf(), c.reframe) {
+        if let Some(b) = bgzf_walk::reframed(&bytes, seed) {
+            bytes = b;
+        }
+    }
     let mut with_empty = false;
     if let (true, Some(sel)) = (drv.is_bgzf(), c.empty_member) {
         if let Some(b) = bgzf_walk::with_empty_member(&bytes, sel) {
@@ -225,6 +233,7 @@ fn check(drv: &dyn Driver, c: &Case, with_interrupts: bool) -> Verdict {
         .label_if(n_records >= 2, "records>=2")
         .label_if(n_records == 0, "no-records")
         .label_if(with_empty, "empty-member-mid-file")
+        .label_if(c.reframe.is_some() && drv.is_bgzf(), "block-boundaries-anywhere")
         .label_if(raw_short > 0, "raw-text-input")
         .label_if(raw.as_ref().map(|r| r.windows(2).any(|w| w == b"\r\n")).unwrap_or(false), "raw-text-crlf")
         .label_if(raw.as_ref().map(|r| !r.is_ascii()).unwrap_or(false), "raw-text-non-ascii")
@@ -334,8 +343,8 @@ pub fn property() -> Property {
                     rule: "non-trivial = the adversary actually delivered ≥1 short read (and ≥1 Interrupted for +intr); distinct by hash of (document, script)".into(),
                     strategy: Box::new(move |tier| {
                         let d = drivers::by_name(dname).unwrap();
-                        (d.doc(tier), mode(), wrap(), proptest::collection::vec(any::<bool>(), 1..6), proptest::option::weighted(0.25, 0u16..=1000))
-                            .prop_map(|(doc, mode, wrap, interrupts, empty_member)| Case { doc, mode, wrap, interrupts, empty_member })
+                        (d.doc(tier), mode(), wrap(), proptest::collection::vec(any::<bool>(), 1..6), proptest::option::weighted(0.25, 0u16..=1000), proptest::option::weighted(0.25, any::<u32>()))
+                            .prop_map(|(doc, mode, wrap, interrupts, empty_member, reframe)| Case { doc, mode, wrap, interrupts, empty_member, reframe })
                             .boxed()
                     }),
                     check: Box::new(move |c| {
